@@ -3,6 +3,7 @@ package main
 import (
 	"fmt"
 	"math/big"
+	"strings"
 )
 
 // Gen carries the executor, the PRNG and the step counter shared by all profiles.
@@ -105,6 +106,26 @@ func (g *Gen) randU64() uint64 {
 }
 
 func genCodec(g *Gen, n int) {
+	// the hex spelling of a remote token -> the 32-byte field (types/token_pair.go)
+	hexd := "0123456789abcdefABCDEF"
+	for k := 0; k*40 < n; k++ {
+		var toks []string
+		full := fmt.Sprintf("%x", g.r.Bytes(32))
+		toks = append(toks, full, "0x"+full, "0X"+full, strings.ToUpper(full), "00"+full, "0x00"+full, "0x0000"+full, full[:62], "0x"+full[:62], full[:63], "0x"+full[:63],
+			full+"00", "+"+full, "-"+full, "0x+"+full[:63], "0x-"+full[:63], " "+full, full+" ", "", "0x", "0", "0x0", "zz", "0xzz", full[:10]+"g"+full[11:], "0x_"+full[:63])
+		for t := 0; t < 10; t++ {
+			l := g.pickInt([]int{1, 2, 3, 31, 32, 33, 63, 64, 65, 66, 67, 68, 130})
+			b := make([]byte, l)
+			for q := range b {
+				b[q] = hexd[g.r.Intn(len(hexd))]
+			}
+			toks = append(toks, string(b), "0x"+string(b))
+		}
+		for _, tk := range toks {
+			g.line("CODEC %d padtoken s=%x", g.n(), tk)
+		}
+		g.stats.Mut("padtoken")
+	}
 	g.line("BEGIN id=1")
 	for i := 0; i < n; i++ {
 		switch g.r.Intn(4) {
